@@ -1,8 +1,10 @@
 package hpacket
 
 import (
+	codectypes "github.com/cosmos/cosmos-sdk/codec/types"
 	sdkerrors "github.com/cosmos/cosmos-sdk/types/errors"
 
+	clienttypes "github.com/bianjieai/tibc-go/modules/tibc/core/02-client/types"
 	packettypes "github.com/bianjieai/tibc-go/modules/tibc/core/04-packet/types"
 	"github.com/bianjieai/tibc-go/modules/tibc/core/exported"
 	"github.com/bianjieai/tibc-go/zzverif/vp"
@@ -61,4 +63,20 @@ func H_C14_gate_clean() {
 	err := k.RecvCleanPacket(ctx, packettypes.CleanPacket{Sequence: n, SourceChain: src, DestinationChain: dst, RelayChain: relay}, vp.Bytes("proof", 1, 1), nondetHeight("h"))
 	vp.Reach("clean request through a non-active client attempted")
 	vp.Assert(err != nil, "C14.3 a clean request proven through a client that is not Active is rejected")
+}
+
+// H_C14_gate_update: a client that is not Active refuses header updates -- also a header that is
+// itself recent enough to bring the client back inside its trusting period.
+func H_C14_gate_update() {
+	c := newCore()
+	vp.Assume(len(c.w.clients) > 0)
+	chain := c.w.clients[0]
+	signer := acct("signer")
+	c.k.ClientKeeper.RegisterRelayers(c.ctx, chain, []string{signer})
+	c.w.status[chain] = nonActive()
+	c.w.reviveOnUpdate = vp.Bool("header.is.recent")
+	_, err := c.srv.UpdateClient(c.ctx, &clienttypes.MsgUpdateClient{ChainName: chain, Signer: signer,
+		Header: codectypes.UnsafePackAny(&stubHeader{h: clienttypes.NewHeight(0, 11)})})
+	vp.Reach("header update of a non-active client attempted")
+	vp.Assert(err != nil, "C14.2 a client that is not Active refuses header updates (also headers that would bring it back inside its trusting period)")
 }
